@@ -932,9 +932,15 @@ impl Exec {
             Err(_) => return Ok(()),
         };
         let n = bytes.len();
-        let tpath = format!("{}.torn", path);
-        if std::fs::write(&tpath, &bytes).is_err() {
+        // the cut is made either on a copy under another name or in place, on the very path the snapshot was saved to
+        // (and possibly saved to before: whatever an earlier save left next to it must not stand in for the torn file)
+        let in_place = self.op_index % 2 == 1;
+        let tpath = if in_place { path.to_string() } else { format!("{}.torn", path) };
+        if !in_place && std::fs::write(&tpath, &bytes).is_err() {
             return Ok(());
+        }
+        if in_place {
+            self.stats.fault("torn_write_in_place");
         }
         let f = match std::fs::OpenOptions::new().write(true).open(&tpath) {
             Ok(f) => f,
@@ -981,7 +987,12 @@ impl Exec {
             }
         }
         drop(f);
-        let _ = std::fs::remove_file(&tpath);
+        if in_place {
+            // the complete snapshot is put back (a later save may go over it)
+            let _ = std::fs::write(&tpath, &bytes);
+        } else {
+            let _ = std::fs::remove_file(&tpath);
+        }
         res
     }
 
